@@ -386,6 +386,33 @@ where
     }
 }
 
+#[cfg(feature = "verif-hooks")]
+impl<T: core::hash::Hash> core::hash::Hash for Member<T> {
+    fn hash<H: core::hash::Hasher>(&self, hasher: &mut H) {
+        self.id.hash(hasher);
+        self.incarnation.hash(hasher);
+        (self.state as u8).hash(hasher);
+    }
+}
+
+#[cfg(feature = "verif-hooks")]
+impl<T: Clone> Clone for Members<T> {
+    fn clone(&self) -> Self {
+        Self {
+            inner: self.inner.clone(),
+            cursor: self.cursor,
+            num_active: self.num_active,
+        }
+    }
+}
+
+#[cfg(feature = "verif-hooks")]
+impl<T> Members<T> {
+    pub(crate) const fn verif_cursor(&self) -> usize {
+        self.cursor
+    }
+}
+
 #[derive(Debug, Clone, PartialEq)]
 #[must_use]
 pub(crate) struct ApplySummary<T> {
